@@ -93,6 +93,18 @@ Proof. exact ser_doc_nonempty. Qed.
 Theorem C09_vint_roundtrip : forall x rest, x < 2 ^ 64 -> vint_dec (vint_enc x ++ rest) = Some (x, rest).
 Proof. exact vint_roundtrip. Qed.
 
+(* serialize_vint_u32 with the branch thresholds regenerated from common/src/vint.rs: every u32 is read
+   back by read_u32_vint (the proof re-checks START_k <= 128^(k-1) on the regenerated constants) *)
+Theorem C09_vint32_roundtrip : forall v rest,
+  v < 2 ^ 32 -> read_u32_vint (serialize_vint_u32 v ++ rest) = Some (v, rest).
+Proof. exact serialize_vint_u32_roundtrip. Qed.
+
+(* TantivyDocument (CompactDoc) payloads -- str / bytes / facet values, array and object address lists --
+   are length-prefixed with that encoder and are read back whole *)
+Theorem C09_compact_doc_bytes_roundtrip : forall data tail,
+  N.of_nat (length data) < 2 ^ 32 -> compact_read_bytes (compact_write_bytes data ++ tail) = Some data.
+Proof. exact compact_bytes_roundtrip. Qed.
+
 (* ---------------------------------------------------------------- block store *)
 (* the per-block offset table: every document of a sealed block is read back, incl. the last one *)
 Theorem C09_block_offsets : forall ds k,
